@@ -2,7 +2,7 @@
 """Regression over the kept seeded changes: apply each /verif/seeded/<id>/patch.diff to a scratch
 copy of /repo/src and run the check of the property it breaks (must exit 1 with a VIOLATION line).
 
-    tools/run_seeded.py [-j 8] [--all-checks [--update-meta]]
+    tools/run_seeded.py [-j 8] [--all-checks [--update-meta]] [--only <id suffixes, comma separated>]
 """
 import concurrent.futures as cf
 import json
@@ -48,6 +48,9 @@ def run(seed: str):
 def main() -> int:
     jobs = int(sys.argv[sys.argv.index("-j") + 1]) if "-j" in sys.argv else 8
     seeds = sorted(os.listdir(os.path.join(VERIF, "seeded")))
+    if "--only" in sys.argv:  # e.g. --only "-19,-20": seeds whose id ends with one of the suffixes
+        sfx = tuple(sys.argv[sys.argv.index("--only") + 1].split(","))
+        seeds = [s for s in seeds if s.endswith(sfx)]
     bad = 0
     with cf.ThreadPoolExecutor(max_workers=jobs) as ex:
         for seed, prop, status, info in ex.map(run, seeds):
